@@ -174,7 +174,8 @@ func pruneAbsent(ms *yang.ModSet, on map[string]bool, keepEmptyCase bool) (*yang
 		walk = func(s *yang.Stmt) {
 			var kids []*yang.Stmt
 			for _, k := range s.Kids {
-				if c14DataKw[k.Kw] {
+				// (a uses or augment whose if-feature is off introduces nothing: it is deleted whole)
+				if c14DataKw[k.Kw] || k.Kw == "uses" || k.Kw == "augment" {
 					absent := false
 					for _, iff := range k.FindAll("if-feature") {
 						if !enabledRef(iff.Arg) {
@@ -414,12 +415,81 @@ func c14GenA(r *core.Rng, idx int) c14Case {
 }
 
 func c14GenB(r *core.Rng) c14Case {
-	cfg := c14GenCfg(r, false)
+	// in half of the cases with groupings: if-feature on uses statements (also of another module's
+	// grouping, whose nodes carry if-features of that module: the features of two modules have the same names)
+	withGroupings := r.Bool()
+	cfg := c14GenCfg(r, withGroupings)
 	cfg.Features = r.Range(1, 2)
 	if cfg.Modules == 1 {
 		cfg.Features = r.Range(2, 5)
 	}
+	if withGroupings {
+		cfg.UsesExtras = true
+		cfg.Modules = 2
+	}
 	ms := yang.GenSchemaSet(r, cfg)
+	if withGroupings {
+		// (refine / augment inside a uses name nodes that the reference deletes: only if-feature, when and status stay;
+		// inside grouping bodies, as below for the data tree: no if-feature on unique targets and default cases)
+		for _, m := range ms.Mods {
+			m.Walk(func(s *yang.Stmt, _ int) {
+				strip := func(t *yang.Stmt) {
+					if t == nil {
+						return
+					}
+					for _, iff := range t.FindAll("if-feature") {
+						t.Remove(iff)
+					}
+				}
+				if s.Kw == "list" {
+					for _, u := range s.FindAll("unique") {
+						for _, w := range strings.Fields(u.Arg) {
+							strip(s.FindArg("leaf", strings.Split(w, "/")[0]))
+							strip(s.FindArg("container", strings.Split(w, "/")[0]))
+						}
+					}
+					if k := s.Find("key"); k != nil {
+						strip(s.FindArg("leaf", k.Arg))
+					}
+				}
+				if d := s.Find("default"); s.Kw == "choice" && d != nil {
+					for _, k := range s.Kids {
+						if k.Arg == d.Arg && k.Kw != "default" {
+							strip(k)
+						}
+					}
+				}
+			}, 0)
+			m.Walk(func(s *yang.Stmt, _ int) {
+				if s.Kw == "uses" {
+					var keep []*yang.Stmt
+					for _, k := range s.Kids {
+						if k.Kw != "refine" && k.Kw != "augment" {
+							keep = append(keep, k)
+						}
+					}
+					s.Kids = keep
+				}
+			}, 0)
+		}
+	}
+	if withGroupings && len(ms.Mods) >= 2 {
+		// the same if-feature text on a uses and on a node of the grouping it names, written in two
+		// modules that each have a feature of that name: two different features
+		a, b := ms.Mods[0], ms.Mods[1]
+		var ipa string
+		for _, imp := range b.FindAll("import") {
+			if imp.Arg == a.Arg {
+				ipa = imp.Find("prefix").Arg
+			}
+		}
+		if ipa != "" && a.FindArg("feature", "f0") != nil && b.FindArg("feature", "f0") != nil {
+			a.Add(yang.S("grouping", "hom-g", yang.S("leaf", "hom-guarded", yang.S("type", "string"), yang.S("if-feature", "f0")), yang.S("leaf", "hom-plain", yang.S("type", "string"))))
+			b.Add(yang.S("container", "hom-use", yang.S("uses", ipa+":hom-g", yang.S("if-feature", "f0"))))
+			yang.SortSections(a)
+			yang.SortSections(b)
+		}
+	}
 	// a denser feature dependency DAG (only on earlier features)
 	var all []*yang.Stmt
 	for _, m := range ms.Mods {
